@@ -29,3 +29,6 @@ run C17-c C17;         run C08-b C08
 run C05-c C05;         run C13-c C13
 run C19-c C19;         run C02-c C02
 run C14-c C14;         run C07-c C07
+run C16-c C16;         run C01-d C19 C01
+run C13-d C06 C13;     run C06-d C06
+run C02-d C02;         run C17-d C17
